@@ -36,6 +36,8 @@ BUILTINS = ["print", "format", "abort", "dbg", "panic", "eprint", "file", "line"
 
 def sx(t):
     if isinstance(t, (list, tuple)):
+        if t and t[0] == "int":
+            t = t[:3]       # a fourth element is a spelling hint, not part of the tree
         return "(" + " ".join(sx(x) for x in t) + ")"
     return str(t)
 
@@ -173,6 +175,10 @@ class Gen:
             e = self.primary(d, no_struct)
             self.note("E.unary")
             if op == "Negative" and e[0] == "int" and 0 < e[1] <= I128_MAX and (e[2] == "_" or e[2][1] in SIGNED):
+                if e[2] == "_" and r.chance(1, 3):
+                    # spelled in hexadecimal or binary the literal is a bit integer and the minus stays an operator
+                    self.note("E.negative-of-bit-literal")
+                    return ["un", op, ["int", e[1], "_", "bit"]]
                 # the first-generation parser folds the sign into a signed literal
                 self.note("E.negative-literal")
                 return ["int", -e[1], e[2]]
@@ -380,17 +386,20 @@ class Render:
             s = s[:-3] + "_" + s[-3:]
         return s
 
-    def int_spelling(self, v, ty):
+    def int_spelling(self, v, ty, hint=None):
         r = self.rng
         neg = v < 0
         a = -v if neg else v
         suffix = "" if ty == "_" else ty[1]
-        forms = ["dec"]
-        # a hex/binary spelling makes a bit integer: only where the tree stays the same
-        signed_literal = (ty == "_" or suffix in SIGNED) and a <= I128_MAX
-        if not signed_literal and not neg:
-            forms += ["hex", "bin", "HEX"]
-        f = "dec" if self.plain else r.pick(forms)
+        # the spelling is free, except that an untyped literal behind a folded minus is decimal and an untyped literal
+        # behind a minus operator is not (hint "bit")
+        if hint == "bit":
+            forms = ["hex", "bin", "HEX"]
+        elif neg and ty == "_":
+            forms = ["dec"]
+        else:
+            forms = ["dec", "dec", "hex", "bin", "HEX"]
+        f = "dec" if (self.plain and hint != "bit") else r.pick(forms)
         if f == "dec":
             s = self.naked_decimal(a)
         elif f == "hex":
@@ -461,7 +470,7 @@ class Render:
             if e[2] != "_" and e[2][1] == "char8":
                 self.emit(self.char_spelling(e[1]))
             else:
-                self.emit(*self.int_spelling(e[1], e[2]))
+                self.emit(*self.int_spelling(e[1], e[2], e[3] if len(e) > 3 else None))
         elif k == "bool":
             self.emit("true" if e[1] else "false")
         elif k == "str":
